@@ -602,6 +602,7 @@ main(int argc, char **argv) {
   }
 
   int status = 0;
+  bool wrote_code = false;
 
   // Now output all of the wrapper functions.
   if (!output_code_filename.empty()) {
@@ -644,6 +645,7 @@ main(int argc, char **argv) {
       status = -1;
     } else {
       builder.write_code(output_code, the_output_include, def);
+      wrote_code = true;
       output_code.close();
       if (output_code.fail()) {
         nout << "Error writing to " << output_code_filename << "\n";
@@ -654,6 +656,14 @@ main(int argc, char **argv) {
 
   if (the_output_include != nullptr) {
     *the_output_include << "#endif  // #define   " << output_include_filename.get_basename_wo_extension() << "__HH__\n";
+  }
+
+  if (!wrote_code) {
+    // Writing the code also puts the index numbers into the order in which
+    // the database is read back (wrappers first, then functions, types and so
+    // on).  Do that now if it hasn't been done, so that the database we write
+    // is numbered the same way whether or not a code file was asked for.
+    InterrogateDatabase::get_ptr()->remap_indices(1);
   }
 
   // And now output the bulk of the database.
